@@ -63,6 +63,9 @@ func ParseBackX(path, src string) (out map[string]string, syntaxErr bool, err er
 				case u.PositiveIntValue != nil:
 					return fmt.Sprint(u.GetPositiveIntValue())
 				case u.StringValue != nil:
+					if string(u.GetStringValue()) == "a\x7f\x01" { // the generators' token for this byte string
+						return "del"
+					}
 					return string(u.GetStringValue())
 				case u.DoubleValue != nil:
 					// as the generators spell it: shortest form, exponent without '+'
